@@ -2,8 +2,8 @@ package gosym
 
 import (
 	"fmt"
-	"math/rand"
 	"go/types"
+	"math/rand"
 	"os"
 	"sort"
 	"strings"
@@ -52,7 +52,10 @@ type Decision struct {
 }
 
 type workItem struct {
-	decs        []Decision
+	// decisions to replay: prefix (shared with the path that forked this item, never written
+	// again) followed by last
+	prefix      []Decision
+	last        *Decision
 	model       *Model
 	assertsDone int
 }
@@ -93,34 +96,36 @@ type Witness struct {
 }
 
 type Stats struct {
-	Paths          int            `json:"paths"`
-	PathsByEnd     map[string]int `json:"paths_by_end"`
-	Branches       int            `json:"symbolic_branch_decisions"`
-	Forks          int            `json:"forks"`
-	Asserts        int            `json:"assert_queries"`
-	AssertsTrivial int            `json:"asserts_constant_true"`
-	AssertsUnsat   int            `json:"asserts_unsat"`
-	AssertsSat     int            `json:"asserts_sat"`
-	TwinViolated   int            `json:"twin_asserts_violated"`
-	TwinHeld       int            `json:"twin_asserts_held"`
-	Steps          int64          `json:"ssa_instructions"`
-	MaxPathSteps   int            `json:"max_path_steps"`
-	Queries        int            `json:"solver_queries"`
-	SolverSeconds  float64        `json:"solver_seconds"`
-	MaxQuerySec    float64        `json:"max_query_seconds"`
-	Unknowns       int            `json:"solver_unknowns"`
-	WallSeconds    float64        `json:"wall_seconds"`
-	Inconclusive   []string       `json:"inconclusive,omitempty"`
-	CrossChecked   int            `json:"cross_checked_queries"`
-	CrossDisagree  int            `json:"cross_disagreements"`
-	MaxTermSize    int            `json:"max_assert_term_nodes"`
-	AssertsByModel int            `json:"asserts_refuted_by_path_model"`
-	UnsatByAbstraction int        `json:"queries_unsat_under_uf_abstraction"`
-	SatBySampling  int            `json:"queries_sat_by_sampled_model"`
-	PortfolioCalls int            `json:"portfolio_calls_after_primary_unknown"`
-	PortfolioDecided int          `json:"portfolio_decided"`
-	AssertsByAbstraction int      `json:"asserts_unsat_under_uf_abstraction_of_div_mul"`
-	StoppedEarly   bool           `json:"stopped_after_5_violations,omitempty"`
+	Paths                int            `json:"paths"`
+	PathsByEnd           map[string]int `json:"paths_by_end"`
+	Branches             int            `json:"symbolic_branch_decisions"`
+	Forks                int            `json:"forks"`
+	Asserts              int            `json:"assert_queries"`
+	AssertsTrivial       int            `json:"asserts_constant_true"`
+	AssertsUnsat         int            `json:"asserts_unsat"`
+	AssertsSat           int            `json:"asserts_sat"`
+	TwinViolated         int            `json:"twin_asserts_violated"`
+	TwinHeld             int            `json:"twin_asserts_held"`
+	Steps                int64          `json:"ssa_instructions"`
+	MaxPathSteps         int            `json:"max_path_steps"`
+	Queries              int            `json:"solver_queries"`
+	SolverSeconds        float64        `json:"solver_seconds"`
+	MaxQuerySec          float64        `json:"max_query_seconds"`
+	Unknowns             int            `json:"solver_unknowns"`
+	WallSeconds          float64        `json:"wall_seconds"`
+	Inconclusive         []string       `json:"inconclusive,omitempty"`
+	CrossChecked         int            `json:"cross_checked_queries"`
+	CrossDisagree        int            `json:"cross_disagreements"`
+	CrossUndecided       int            `json:"cross_undecided"`
+	CrossSkipped         int            `json:"cross_not_sampled"`
+	MaxTermSize          int            `json:"max_assert_term_nodes"`
+	AssertsByModel       int            `json:"asserts_refuted_by_path_model"`
+	UnsatByAbstraction   int            `json:"queries_unsat_under_uf_abstraction"`
+	SatBySampling        int            `json:"queries_sat_by_sampled_model"`
+	PortfolioCalls       int            `json:"portfolio_calls_after_primary_unknown"`
+	PortfolioDecided     int            `json:"portfolio_decided"`
+	AssertsByAbstraction int            `json:"asserts_unsat_under_uf_abstraction_of_div_mul"`
+	StoppedEarly         bool           `json:"stopped_after_5_violations,omitempty"`
 }
 
 type Result struct {
@@ -177,27 +182,29 @@ type Engine struct {
 	condW   map[*Obj]map[int][]*G
 	schedIx int
 
-	stubs      map[string]*Closure
-	fnUsed     map[*ssa.Function]int
-	intrUsed   map[string]int
-	stubUsed   map[string]bool
-	initDone   map[*ssa.Package]bool
-	nowCounter int64
-	params     map[string]int64
-	logSink    []logRec
-	pwTerms    [][]*Term
-	extra      map[string]interface{}
-	obsTerms   map[string][]*Term
-	secrets    []secretRec
-	fnByName   map[string]*ssa.Function
+	stubs       map[string]*Closure
+	fnUsed      map[*ssa.Function]int
+	intrUsed    map[string]int
+	stubUsed    map[string]bool
+	initDone    map[*ssa.Package]bool
+	nowCounter  int64
+	params      map[string]int64
+	logSink     []logRec
+	pwTerms     [][]*Term
+	extra       map[string]interface{}
+	obsTerms    map[string][]*Term
+	obsUnsigned map[string]map[int]bool
+	secrets     []secretRec
+	fnByName    map[string]*ssa.Function
 	opaqueCount int
-	InitNotes  []string
-	metaCache  map[*ssa.Function]*fnMetaT
-	pcVars     map[int]bool
-	probeHits  int
-	synUnsat   int
-	regexps    map[*Obj]string
-	rng        *rand.Rand
+	InitNotes   []string
+	metaCache   map[*ssa.Function]*fnMetaT
+	pcVars      map[int]bool
+	probeHits   int
+	synUnsat    int
+	regexps     map[*Obj]string
+	crossSeen   int
+	rng         *rand.Rand
 }
 
 type allowRec struct {
@@ -230,7 +237,7 @@ func NewEngine(prog *ssa.Program, opts Options) *Engine {
 }
 
 func (e *Engine) SetParam(k string, v int64) { e.params[k] = v }
-func (e *Engine) ClearParams()                { e.params = map[string]int64{} }
+func (e *Engine) ClearParams()               { e.params = map[string]int64{} }
 
 // SetOptions replaces the options (defaults applied) between runs.
 func (e *Engine) SetOptions(opts Options) {
@@ -485,8 +492,7 @@ func (e *Engine) branch(c *Term) bool {
 	d := Decision{Kind: decBranch, Val: b2u(side)}
 	switch r {
 	case Sat:
-		alt := append(append([]Decision(nil), e.taken...), Decision{Kind: decBranch, Val: b2u(!side)})
-		e.work = append(e.work, &workItem{decs: alt, model: m, assertsDone: e.assertIdx})
+		e.work = append(e.work, &workItem{prefix: e.taken[:len(e.taken):len(e.taken)], last: &Decision{Kind: decBranch, Val: b2u(!side)}, model: m, assertsDone: e.assertIdx})
 		e.res.Stats.Forks++
 	case Unsat:
 		d.Forced = true
@@ -548,8 +554,7 @@ func (e *Engine) concretize(t *Term) uint64 {
 		d := Decision{Kind: decConc, Val: v, Taken: true}
 		switch r {
 		case Sat:
-			alt := append(append([]Decision(nil), e.taken...), Decision{Kind: decConc, Val: v, Taken: false})
-			e.work = append(e.work, &workItem{decs: alt, model: m, assertsDone: e.assertIdx})
+			e.work = append(e.work, &workItem{prefix: e.taken[:len(e.taken):len(e.taken)], last: &Decision{Kind: decConc, Val: v, Taken: false}, model: m, assertsDone: e.assertIdx})
 			e.res.Stats.Forks++
 		case Unsat:
 			d.Forced = true
@@ -586,8 +591,7 @@ func (e *Engine) choose(n int) int {
 		return v
 	}
 	for i := n - 1; i >= 1; i-- {
-		alt := append(append([]Decision(nil), e.taken...), Decision{Kind: decChoice, Val: uint64(i)})
-		e.work = append(e.work, &workItem{decs: alt, model: e.model, assertsDone: e.assertIdx})
+		e.work = append(e.work, &workItem{prefix: e.taken[:len(e.taken):len(e.taken)], last: &Decision{Kind: decChoice, Val: uint64(i)}, model: e.model, assertsDone: e.assertIdx})
 		e.res.Stats.Forks++
 	}
 	e.taken = append(e.taken, Decision{Kind: decChoice, Val: 0})
@@ -769,13 +773,23 @@ func (e *Engine) assert(c *Term, msg string, knownID string, guard *Term) {
 }
 
 func (e *Engine) crossCheck(q *Term, want SatResult) {
+	// every assertion query of a run up to the 100th, every 20th after that (a one-shot process of
+	// the older solver costs about a second per query on these formulas)
+	e.crossSeen++
+	if e.crossSeen > 100 && e.crossSeen%20 != 0 {
+		e.res.Stats.CrossSkipped++
+		return
+	}
 	script := Script(e.pc, q)
 	for _, k := range e.opts.CrossSolvers {
-		r, _, err := OneShot(k, script, e.opts.TimeoutMS/1000+1)
-		e.res.Stats.CrossChecked++
+		// a second opinion, not a second budget: 5 s per query; an undecided cross-check is
+		// counted separately and proves nothing either way
+		r, _, err := OneShot(k, script, 5)
 		if err != nil || r == Unknown {
+			e.res.Stats.CrossUndecided++
 			continue
 		}
+		e.res.Stats.CrossChecked++
 		if r != want {
 			e.res.Stats.CrossDisagree++
 			e.markInconclusive(fmt.Sprintf("solver disagreement: %s=%s %s=%s", e.solver.Kind, want, k, r))
@@ -811,6 +825,8 @@ func (e *Engine) snapshotObserved(m *Model) map[string]string {
 				fmt.Fprintf(&sb, "%02x", x)
 			} else if t.W == 1 {
 				fmt.Fprintf(&sb, "%d", x)
+			} else if e.obsUnsigned[k][i] {
+				fmt.Fprintf(&sb, "%d", x)
 			} else {
 				fmt.Fprintf(&sb, "%d", signExt(x, t.W))
 			}
@@ -829,6 +845,7 @@ func (e *Engine) Run(fn *ssa.Function, harness string) *Result {
 	e.res = res
 	e.harness = harness
 	e.startTime = time.Now()
+	e.crossSeen = 0
 	if !e.opts.Concrete && e.opts.ForcedModel == nil {
 		s, err := NewSolver(e.opts.Solver, e.opts.TimeoutMS)
 		if err != nil {
@@ -954,15 +971,19 @@ func (e *Engine) runPath(fn *ssa.Function, it *workItem) (end pathEnd) {
 	e.pc = e.pc[:0]
 	e.pcVars = map[int]bool{}
 	e.model = it.model
-	e.decs = it.decs
+	e.decs = append([]Decision(nil), it.prefix...)
+	if it.last != nil {
+		e.decs = append(e.decs, *it.last)
+	}
 	e.dpos = 0
-	e.taken = e.taken[:0]
+	e.taken = nil // a fresh array per path: forked items keep read-only views of the old one
 	e.assertIdx = 0
 	e.assertsDn = it.assertsDone
 	e.steps = 0
 	e.varCount = map[string]int{}
 	e.observed = map[string]string{}
 	e.obsTerms = map[string][]*Term{}
+	e.obsUnsigned = map[string]map[int]bool{}
 	e.allowAbt = nil
 	e.expectAbt = false
 	e.twinMode = false
